@@ -176,3 +176,50 @@ GROUPS["g3"] = [
       "                self.save_file_dictionary(&file_url, dict)\n                    .await\n                    .map_err(|err| error!(\"{err}\"))\n                    .err();\n                self.update_document_from_file(&file_url, None)",
       "R-C09-source:execute_command:HarperAddToFileDict"),
 ]
+
+GROUPS["g4"] = [
+    E("c17-teens", ["C17"], "harper-core/src/number.rs",
+      "if let 11..=13 = integer % 100 {", "if let 11..=12 = integer % 100 {",
+      "R-C17-table:correct_suffix_for:table"),
+    E("c17-span-3", ["C17"], "harper-core/src/linting/correct_number_suffix.rs",
+      "Span::new_with_len(number_tok.span.end, 2).pulled_by(2)", "Span::new_with_len(number_tok.span.end, 2).pulled_by(3)",
+      "R-C17-flow:CorrectNumberSuffix::lint:span"),
+    E("c17-swapped-suffix", ["C17"], "harper-core/src/number.rs",
+      "            NumberSuffix::Nd => vec!['n', 'd'],\n            NumberSuffix::Rd => vec!['r', 'd'],",
+      "            NumberSuffix::Nd => vec!['r', 'd'],\n            NumberSuffix::Rd => vec!['n', 'd'],",
+      "R-C17-flow:NumberSuffix::to_chars"),
+    E("c18-push", ["C18"], "harper-core/src/title_case.rs",
+      "        if should_capitalize {\n            output[word.span.start - start_index] =",
+      "        if should_capitalize {\n            if index > 1000 {\n                output.push('!');\n            }\n            output[word.span.start - start_index] =",
+      "R-C18-length:make_title_case:push"),
+    E("c18-other-index", ["C18"], "harper-core/src/title_case.rs",
+      "                output[i - start_index] = output[i - start_index].to_ascii_lowercase();",
+      "                output[i - start_index] = output[word.span.start - start_index].to_ascii_lowercase();",
+      "R-C18-caseonly:make_title_case:store:lower"),
+    E("c08-utf8", ["C08"], "harper-ls/src/pos_conv.rs",
+      "        .map(|c| c.len_utf16())\n        .sum();", "        .map(|c| c.len_utf8())\n        .sum();",
+      "R-C08-utf16:index_to_position"),
+    E("c08-plus-one", ["C08"], "harper-ls/src/pos_conv.rs",
+      "        traversed_cols += c.len_utf16();", "        traversed_cols += c.len_utf16().min(1);",
+      "R-C08-utf16:position_to_index"),
+    E("c08-insert-after-drops-flagged", ["C08"], "harper-ls/src/diagnostics.rs",
+      "                    Suggestion::InsertAfter(with) => format!(\n                        \"{}{}\",\n                        lint.span.get_content_string(source),\n                        with.to_string()\n                    ),",
+      "                    Suggestion::InsertAfter(with) => with.to_string(),",
+      "R-C08-range:lint_to_code_actions:new_text"),
+    E("c06-no-normalise", ["C06"], "harper-core/src/spell/word_id.rs",
+      "        let normalized = chars.as_ref().normalized();\n        let lower = normalized.to_lower();",
+      "        let normalized = chars.as_ref();\n        let lower = normalized.to_lower();",
+      "R-C06-id:WordId::from_word_chars"),
+    E("c06-accept-any-case", ["C06"], "harper-core/src/linting/spell_check.rs",
+      "                    && (self.dictionary.contains_exact_word(word_chars)\n                        || self.dictionary.contains_exact_word(&word_chars.to_lower()))",
+      "                    && (self.dictionary.contains_exact_word(word_chars)\n                        || self.dictionary.contains_word(&word_chars.to_lower()))",
+      "R-C06-accept:"),
+]
+
+# edits that break the behaviour but keep every structural fact the rules look at: documented misses
+GROUPS["limits"] = [
+    E("c06-no-dialect-filter", ["C06"], "harper-core/src/linting/spell_check.rs",
+      "                .is_none_or(|d| d == self.dialect)\n        });",
+      "                .is_none_or(|d| d == self.dialect || true)\n        });",
+      None),
+]
